@@ -122,81 +122,83 @@ def dbgStep (code : List Cmd) (rest : List (List Char)) (d : Dbg N) :
 def flushBufs (d : Dbg N) : Dbg N × List Char :=
   ({ d with bufO := [], bufE := [] }, showBuffers d.bufO d.bufE)
 
+inductive DbgNext (N : Type) where
+  /-- the session ends, after showing `text` -/
+  | done (text : List Char) (e : DbgEnd)
+  /-- the session goes on with the remaining script and the new debugger state, after showing `text` -/
+  | cont (lines : List (List Char)) (d : Dbg N) (text : List Char)
+
+/-- one iteration of the debugger loop: either one running step / breakpoint stop, or one prompt
+with the command read from the script -/
+def dbgTrans [ShowN N] (fname : List Char) (pcode : List PCmd) (code : List Cmd)
+    (lines : List (List Char)) (d : Dbg N) : DbgNext N :=
+  match d.hist with
+  | [] => .done [] (.crash "state_stack.last().unwrap()")
+  | sn :: older =>
+    if sn.loc ≥ code.length then .done (flushBufs d).2 (.exit 0)
+    else if d.running then
+      if d.bps.contains sn.loc then
+        .cont lines { (flushBufs d).1 with running := false } (flushBufs d).2
+      else match dbgStep code lines d with
+        | .error (e, t) => .done t e
+        | .ok d' => .cont lines d' []
+    else
+      match lines with
+      | [] => .done prompt (.exit 0)
+      | l :: rest =>
+        let parsed := splitSpaces (trim l)
+        let cmd := parsed.headD []
+        if cmd = "next".toList ∨ cmd = "n".toList then
+          match pcode[sn.loc]? with
+          | none => .done prompt (.crash "un_opt_code[index]")
+          | some pc =>
+            match dbgStep code rest d with
+            | .error (e, t) => .done (prompt ++ listing fname [(sn.loc, pc)] ++ t) e
+            | .ok d' => .cont rest (flushBufs d').1 (prompt ++ listing fname [(sn.loc, pc)] ++ (flushBufs d').2)
+        else if cmd = "previous".toList ∨ cmd = "p".toList then
+          match older with
+          | [] => .cont rest d (prompt ++ errLine "can't go back".toList)
+          | _ :: _ => .cont rest { d with hist := older } (prompt ++ logLine "moved back".toList)
+        else if cmd = "run".toList ∨ cmd = "r".toList then
+          match dbgStep code rest d with
+          | .error (e, t) => .done (prompt ++ t) e
+          | .ok d' => .cont rest { d' with running := true } prompt
+        else if cmd = "state".toList ∨ cmd = "s".toList then
+          .cont rest d (prompt ++ showState sn)
+        else if cmd = "break".toList ∨ cmd = "b".toList then
+          match parsed with
+          | [_] =>
+            let sorted := d.bps.foldr insertSortedNat []
+            -- `&un_opt_code[*i]` for every breakpoint
+            if sorted.all (fun i => decide (i < pcode.length)) then
+              .cont rest d (prompt ++ logLine "printing breakpoints".toList ++
+                listing fname (sorted.filterMap (fun i => (pcode[i]?).map (fun pc => (i, pc)))))
+            else .done (prompt ++ logLine "printing breakpoints".toList) (.crash "un_opt_code[breakpoint]")
+          | _ :: arg :: _ =>
+            match parseUsize arg with
+            | .error kind => .cont rest d (prompt ++ errLine ("ParseIntError { kind: " ++ kind ++ " }").toList)
+            | .ok num =>
+              if num ≥ pcode.length then .cont rest d (prompt ++ errLine "number exceeds the range".toList)
+              else if d.bps.contains num then
+                .cont rest { d with bps := d.bps.filter (· ≠ num) }
+                  (prompt ++ logLine ("unset breakpoint on line ".toList ++ natStr num))
+              else
+                .cont rest { d with bps := num :: d.bps }
+                  (prompt ++ logLine ("set breakpoint on line ".toList ++ natStr num))
+          | [] => .done prompt (.crash "parsed[0]")
+        else if cmd = "help".toList ∨ cmd = "h".toList then .cont rest d (prompt ++ dbgHelp)
+        else if cmd = "exit".toList then .done prompt (.exit 0)
+        else if cmd = [] then .cont rest d prompt
+        else .cont rest d (prompt ++ errLine ("command \"".toList ++ cmd ++ "\" not found".toList))
+
 /-- the session; `fuel` bounds the number of loop iterations (prompts and running steps) -/
 def debugLoop [ShowN N] (fname : List Char) (pcode : List PCmd) (code : List Cmd) :
     Nat → List (List Char) → Dbg N → List Char → List Char × DbgEnd
   | 0, _, _, shown => (shown, .hang)
   | fuel+1, lines, d, shown =>
-    match d.hist with
-    | [] => (shown, .crash "state_stack.last().unwrap()")
-    | sn :: older =>
-      if sn.loc ≥ code.length then
-        let (_, t) := flushBufs d
-        (shown ++ t, .exit 0)
-      else if d.running then
-        if d.bps.contains sn.loc then
-          let (d', t) := flushBufs d
-          debugLoop fname pcode code fuel lines { d' with running := false } (shown ++ t)
-        else match dbgStep code lines d with
-          | .error (e, t) => (shown ++ t, e)
-          | .ok d' => debugLoop fname pcode code fuel lines d' shown
-      else
-        let shown := shown ++ prompt
-        match lines with
-        | [] => (shown, .exit 0)
-        | l :: rest =>
-          let parsed := splitSpaces (trim l)
-          let cmd := parsed.headD []
-          if cmd = "next".toList ∨ cmd = "n".toList then
-            match pcode[sn.loc]? with
-            | none => (shown, .crash "un_opt_code[index]")
-            | some pc =>
-              let shown := shown ++ listing fname [(sn.loc, pc)]
-              match dbgStep code rest d with
-              | .error (e, t) => (shown ++ t, e)
-              | .ok d' =>
-                let (d'', t) := flushBufs d'
-                debugLoop fname pcode code fuel rest d'' (shown ++ t)
-          else if cmd = "previous".toList ∨ cmd = "p".toList then
-            match older with
-            | [] => debugLoop fname pcode code fuel rest d (shown ++ errLine "can't go back".toList)
-            | _ :: _ => debugLoop fname pcode code fuel rest { d with hist := older } (shown ++ logLine "moved back".toList)
-          else if cmd = "run".toList ∨ cmd = "r".toList then
-            match dbgStep code rest d with
-            | .error (e, t) => (shown ++ t, e)
-            | .ok d' => debugLoop fname pcode code fuel rest { d' with running := true } shown
-          else if cmd = "state".toList ∨ cmd = "s".toList then
-            debugLoop fname pcode code fuel rest d (shown ++ showState sn)
-          else if cmd = "break".toList ∨ cmd = "b".toList then
-            match parsed with
-            | [_] =>
-              let sorted := d.bps.foldr insertSortedNat []
-              -- `&un_opt_code[*i]` for every breakpoint
-              if sorted.all (fun i => decide (i < pcode.length)) then
-                let entries := sorted.filterMap (fun i => (pcode[i]?).map (fun pc => (i, pc)))
-                debugLoop fname pcode code fuel rest d (shown ++ logLine "printing breakpoints".toList ++ listing fname entries)
-              else (shown ++ logLine "printing breakpoints".toList, .crash "un_opt_code[breakpoint]")
-            | _ :: arg :: _ =>
-              match parseUsize arg with
-              | .error kind =>
-                debugLoop fname pcode code fuel rest d
-                  (shown ++ errLine ("ParseIntError { kind: " ++ kind ++ " }").toList)
-              | .ok num =>
-                if num ≥ pcode.length then
-                  debugLoop fname pcode code fuel rest d (shown ++ errLine "number exceeds the range".toList)
-                else if d.bps.contains num then
-                  debugLoop fname pcode code fuel rest { d with bps := d.bps.filter (· ≠ num) }
-                    (shown ++ logLine ("unset breakpoint on line ".toList ++ natStr num))
-                else
-                  debugLoop fname pcode code fuel rest { d with bps := num :: d.bps }
-                    (shown ++ logLine ("set breakpoint on line ".toList ++ natStr num))
-            | [] => (shown, .crash "parsed[0]")
-          else if cmd = "help".toList ∨ cmd = "h".toList then
-            debugLoop fname pcode code fuel rest d (shown ++ dbgHelp)
-          else if cmd = "exit".toList then (shown, .exit 0)
-          else if cmd = [] then debugLoop fname pcode code fuel rest d shown
-          else debugLoop fname pcode code fuel rest d
-            (shown ++ errLine ("command \"".toList ++ cmd ++ "\" not found".toList))
+    match dbgTrans fname pcode code lines d with
+    | .done t e => (shown ++ t, e)
+    | .cont lines' d' t => debugLoop fname pcode code fuel lines' d' (shown ++ t)
 
 /-- `hyeong debug FILE` on the text `src` with the script on standard input -/
 def debugSession [ShowN N] (fuel : Nat) (path fname : List Char) (src : List Char) (script : List Char) : List Char × DbgEnd :=
